@@ -107,6 +107,16 @@ def generate(rng, tier):
         if rng.random() < 0.25:
             ops.append({"t": round(rng.choice([5.0, 100.0, 900.0, 1500.0, 3000.0]) + rng.random(), 6), "op": "cancel",
                         "h": "B", "id": b["id"]})
+    if rng.random() < 0.06:
+        # the application creates the browser in the instant it creates the instance, and the process is descheduled
+        # for some seconds before the instance has finished starting (a VM pause, blocking start-up code)
+        for o in ops:
+            if o["op"] == "browse":
+                o["t"] = 0.0
+        for b in browsers:
+            b["t"] = 0.0
+        ops.append({"t": rng.choice([0.0000001, 0.00001, 0.0002]), "op": "stall", "h": "B",
+                    "dur": rng.choice([0.5, 3.0, 8.9, 9.05, 9.5, 12.0])})
     ops = [o for o in ops if 0.0 <= o["t"] < horizon - 1.0]
     ops.sort(key=lambda o: o["t"])
     faults = {"max_delay_us": rng.choice([0, 1000, 100000]), "loop_delay_us": rng.choice([0, 1000]),
@@ -220,7 +230,10 @@ def _oracle(w, drv, sc, model, updates, out):
                         "start-up queries")
                 continue
             t1 = passes[0][0]
-            if not (0.020 - 1e-9 <= t1 - start <= 0.120 + SLACK):
+            # (a process that was descheduled while it started runs its first pass when it comes back: the 20..120 ms
+            # count from then; the count of four, their spacing and their types are judged as ever)
+            stall_end = max([b2 for a2, b2, hn in drv.stalls if hn == "B" and a2 <= start + 0.2] + [start])
+            if not (0.020 - 1e-9 <= t1 - start <= 0.120 + SLACK + (stall_end - start)):
                 out.add("C10.startup-first-delay", f"browser {b['id']}: first query {1000 * (t1 - start):.3f} ms after "
                         "start, expected 20..120 ms")
             exp = t1
